@@ -65,6 +65,9 @@ def build_programs(env, tier, seed):
     for name, p in corpus.programs():
         progs.append((p, "corpus:" + name))
         meta.append(("corpus", name, None))
+    for name, p in corpus.witnesses():
+        progs.append((p, "witness:" + name))
+        meta.append(("witness", name, None))
     n_rand = 240 if tier == "quick" else 6000
     for i in range(n_rand):
         s = seed * 100000 + i
@@ -93,6 +96,11 @@ def run(tier, seed, replay=None, target="native", pid="C01"):
     for ob, (kind, a, lm) in zip(obs, meta):
         rep = {"name": ob["name"], "program": ob["text"], "prog": ob["prog"]}
         st = ob["status"]
+        if kind == "witness":          # a recorded finding's fixed witness: reported under its own key while it reproduces
+            v = ob.get("verdict")
+            if not (st == "ran" and v is not None and v["ok"]):
+                chk.fail("%s|witness|%s" % (pid, a), "%s: %s" % (a, ob.get("msg") or ("prints %r, prescribed %r" % (ob.get("out"), v and v["out"]))), rep)
+            continue
         if st == "void":
             stats["void"] += 1
         elif st in ("crash", "hang"):
